@@ -131,6 +131,14 @@ macro_rules! forms { ($m:ident, $na:literal, $nb:literal) => { pub mod $m {
     #[derive(Deserialize)] #[serde(bound(deserialize = "B: Fld<'de>"))]
     pub struct FB<B> { #[serde(rename = $nb)] pub b: B }
     #[derive(Deserialize)] pub struct F0 {}
+    // the same shapes, refusing fields they do not declare
+    #[derive(Deserialize)] #[serde(deny_unknown_fields, bound(deserialize = "A: Fld<'de>, B: Fld<'de>"))]
+    pub struct X2<A, B> { #[serde(rename = $na)] pub a: A, #[serde(rename = $nb)] pub b: B }
+    #[derive(Deserialize)] #[serde(deny_unknown_fields, bound(deserialize = "A: Fld<'de>"))]
+    pub struct XA<A> { #[serde(rename = $na)] pub a: A }
+    #[derive(Deserialize)] #[serde(deny_unknown_fields, bound(deserialize = "B: Fld<'de>"))]
+    pub struct XB<B> { #[serde(rename = $nb)] pub b: B }
+    #[derive(Deserialize)] #[serde(deny_unknown_fields)] pub struct X0 {}
     #[derive(Deserialize)] #[serde(bound(deserialize = "A: Fld<'de>, B: Fld<'de>"))]
     pub struct D2<A, B> { #[serde(rename = $na, default = "A::dflt")] pub a: A, #[serde(rename = $nb, default = "B::dflt")] pub b: B }
     #[derive(Deserialize)] #[serde(bound(deserialize = "A: Fld<'de>"))]
@@ -163,6 +171,24 @@ fn fin_b<'de, B: Fld<'de>>(cx: &mut Cx, dflt: bool, input: &'de [u8]) -> R {
 fn fin_0(cx: &mut Cx, input: &[u8]) -> R {
     let r = match cx.v { 0 => from_bytes::<n0::F0>(input).map(|_| ()), 1 => from_bytes::<n1::F0>(input).map(|_| ()), _ => from_bytes::<n2::F0>(input).map(|_| ()) };
     r.map_err(|e| e.to_string()).map(|_| (absent(), absent()))
+}
+fn fin_ab_x<'de, A: Fld<'de>, B: Fld<'de>>(cx: &mut Cx, input: &'de [u8]) -> R { per_variant!(cx, false, input, |f: X2 | D2<A, B>| (f.a.proj(cx), f.b.proj(cx))) }
+fn fin_a_x<'de, A: Fld<'de>>(cx: &mut Cx, input: &'de [u8]) -> R { per_variant!(cx, false, input, |f: XA | DA<A>| (f.a.proj(cx), absent())) }
+fn fin_b_x<'de, B: Fld<'de>>(cx: &mut Cx, input: &'de [u8]) -> R { per_variant!(cx, false, input, |f: XB | DB<B>| (absent(), f.b.proj(cx))) }
+fn fin_0_x(cx: &mut Cx, input: &[u8]) -> R {
+    let r = match cx.v { 0 => from_bytes::<n0::X0>(input).map(|_| ()), 1 => from_bytes::<n1::X0>(input).map(|_| ()), _ => from_bytes::<n2::X0>(input).map(|_| ()) };
+    r.map_err(|e| e.to_string()).map(|_| (absent(), absent()))
+}
+/// the targets that refuse unknown fields (`deny` of the scenario's target): a / b of the form's natural types or left out
+fn level_deny<'de>(cx: &mut Cx, ta: &str, tb: &str, input: &'de [u8]) -> Option<R> {
+    macro_rules! with_a { ($A:ty) => { match tb {
+        "none" => fin_a_x::<$A>(cx, input), "str" => fin_ab_x::<$A, &'de str>(cx, input), "file" => fin_ab_x::<$A, File<'de>>(cx, input),
+        "optfile" => fin_ab_x::<$A, Option<File<'de>>>(cx, input), "vecfile" => fin_ab_x::<$A, Vec<File<'de>>>(cx, input), _ => return None } } }
+    Some(match ta {
+        "none" => match tb { "none" => fin_0_x(cx, input), "str" => fin_b_x::<&'de str>(cx, input), "file" => fin_b_x::<File<'de>>(cx, input),
+                             "optfile" => fin_b_x::<Option<File<'de>>>(cx, input), "vecfile" => fin_b_x::<Vec<File<'de>>>(cx, input), _ => return None },
+        "str" => with_a!(&'de str), "file" => with_a!(File<'de>), "optfile" => with_a!(Option<File<'de>>), "vecfile" => with_a!(Vec<File<'de>>),
+        _ => return None })
 }
 fn level_b<'de, A: Fld<'de>>(cx: &mut Cx, tb: &str, dflt: bool, input: &'de [u8]) -> Option<R> {
     Some(match tb {
@@ -218,7 +244,8 @@ pub fn run(scn: &Value) -> Value {
     let (ta, tb, dflt) = (util::s(&scn["target"]["a"]), util::s(&scn["target"]["b"]), scn["target"]["dflt"].as_bool().unwrap_or(false));
     if dflt && (ta == "file" || tb == "file") { return json!({"kind": "tool-error", "msg": "File has no default"}) }
     let hex = util::hex(&input);
-    let Some(r) = level_a(&mut cx, ta, tb, dflt, &input) else { return json!({"kind": "tool-error", "msg": format!("unknown target {ta}/{tb}")}) };
+    let deny = scn["target"]["deny"].as_bool().unwrap_or(false);
+    let Some(r) = (if deny { level_deny(&mut cx, ta, tb, &input) } else { level_a(&mut cx, ta, tb, dflt, &input) }) else { return json!({"kind": "tool-error", "msg": format!("unknown target {ta}/{tb}")}) };
     match r {
         Ok((a, b)) => json!({"kind": "value", "a": a, "b": b, "inrange": cx.inrange, "utf8ok": cx.utf8ok, "where": "", "err": "", "errfield": "", "hex": hex}),
         Err(m) => {
